@@ -292,4 +292,4 @@ QUERIES = [
                                "corpus": "one tiny model (space, pickled and literal refs, cells with input)", "history": "[older save] ; good save ; faulted save|load ; two further saves"},
           outside=["faults below the Python API (torn writes, power loss)", "concurrent writers", "larger models (more operations)"]),
 ]
-BUDGET = {"quick": 420, "thorough": 1800}
+BUDGET = {"quick": 420, "thorough": 1200}
